@@ -275,6 +275,10 @@ def main(tier: str) -> int:
                                  timeout=3400))
         else:
             jobs.append(dict(module="Products_Gen", cfg_text=cfg(rich), defs=d, timeout=3400))
+    # a long, sparsely filled mode (the result of a product stays sparse)
+    for s in ([(2, 9)] if tier == "quick" else [(2, 9), (3, 11), (2, 2, 7)]):
+        jobs.append(dict(module="Products_Gen", cfg_text=cfg(False, ops=("ttv", "mttkrp", "innerprod", "collapse", "contract"), kinds=("sparse",)),
+                         defs={"ShapeC": tla.tla(list(s))}, timeout=3400))
     results = tla.run_many(jobs)
     behaviours = []
     for r in results:
